@@ -8,6 +8,41 @@
 use super::*;
 use bcref::cast6 as r;
 use cipher::Array;
+include!("@VERIF@/contracts/serpent/sched_uf.inc");
+
+// forward_quad / reverse_quad / forward_octave as scheduled uninterpreted functions (see sched_uf.inc), shared by the
+// real callee and the reference's: by c_forward_quad, c_reverse_quad, c_forward_octave they are the same functions of
+// (state words, masking keys, rotation keys).
+type QArg = ([u32; 4], [u32; 4], [u8; 4]);
+fn eq_qarg(a: &QArg, b: &QArg) -> bool { eq4(&a.0, &b.0) && eq4(&a.1, &b.1) && u32::from_le_bytes(a.2) == u32::from_le_bytes(b.2) }
+type WArg = ([u32; 8], [u32; 8], [u8; 8]);
+fn eq_warg(a: &WArg, b: &WArg) -> bool {
+    let mut ok = u64::from_le_bytes(a.2) == u64::from_le_bytes(b.2);
+    let mut i = 0;
+    while i < 8 {
+        ok &= a.0[i] == b.0[i] && a.1[i] == b.1[i];
+        i += 1;
+    }
+    ok
+}
+sched_uf!(uf_q, QArg, ([0; 4], [0; 4], [0; 4]), [u32; 4], [0; 4], 6, eq_qarg);
+sched_uf!(uf_qb, QArg, ([0; 4], [0; 4], [0; 4]), [u32; 4], [0; 4], 6, eq_qarg);
+sched_uf!(uf_w, WArg, ([0; 8], [0; 8], [0; 8]), [u32; 8], [0; 8], 24, eq_warg);
+pub fn st_q_real(beta: &mut [u32; 4], m: &[u32; 4], rot: &[u8; 4]) { *beta = uf_q::call((*beta, *m, *rot)); }
+pub fn st_qb_real(beta: &mut [u32; 4], m: &[u32; 4], rot: &[u8; 4]) { *beta = uf_qb::call((*beta, *m, *rot)); }
+fn st_q_ref(beta: [u32; 4], kr: &[u8; 4], km: &[u32; 4]) -> [u32; 4] { uf_q::call((beta, *km, *kr)) }
+fn st_qb_ref(beta: [u32; 4], kr: &[u8; 4], km: &[u32; 4]) -> [u32; 4] { uf_qb::call((beta, *km, *kr)) }
+pub fn st_w_real(kappa: &mut [u32; 8], m: &[u32], rot: &[u8]) {
+    let tm = [m[0], m[1], m[2], m[3], m[4], m[5], m[6], m[7]];
+    let tr = [rot[0], rot[1], rot[2], rot[3], rot[4], rot[5], rot[6], rot[7]];
+    *kappa = uf_w::call((*kappa, tm, tr));
+}
+fn st_w_ref(kappa: [u32; 8], tr: &[u8; 8], tm: &[u32; 8]) -> [u32; 8] { uf_w::call((kappa, *tm, *tr)) }
+fn replay_all() {
+    uf_q::replay_same_order();
+    uf_qb::replay_same_order();
+    uf_w::replay_same_order();
+}
 
 pub fn any_cast6() -> Cast6 { Cast6 { masking: kani::any(), rotate: kani::any() } }
 pub fn keyed_of(c: &Cast6) -> r::Keyed { r::Keyed { kr: c.rotate, km: c.masking } }
@@ -125,12 +160,14 @@ fn c_word_conversions() {
 // key_schedule from ANY prior state, for every 256-bit (padded) key
 // @ob name=c_key_schedule props=C08,C20 fn=cast6::Cast6::key_schedule uses=c_forward_octave,x_tables timeout=900
 #[kani::proof]
-#[kani::stub(forward_octave, spec_forward_octave)]
-#[kani::unwind(13)]
+#[kani::stub(forward_octave, st_w_real)]
+#[kani::stub(bcref::cast6::w, st_w_ref)]
+#[kani::unwind(25)]
 fn c_key_schedule() {
     let key: [u8; 32] = kani::any();
     let mut c = any_cast6();
     c.key_schedule(&key);
+    replay_all();
     let kd = r::key_schedule(&key);
     assert!(eq_keyed(&c, &kd));
     // what the key schedule leaves in `rotate` are 5-bit amounts
@@ -144,96 +181,77 @@ fn c_key_schedule() {
 // ------------------------------------------------------------------ block functions
 // @ob name=c_encrypt_block props=C08,C20 fn=cast6::Cast6::encrypt_block uses=c_forward_quad,c_reverse_quad,c_word_conversions timeout=900
 #[kani::proof]
-#[kani::stub(forward_quad, spec_forward_quad)]
-#[kani::stub(reverse_quad, spec_reverse_quad)]
-#[kani::unwind(13)]
+#[kani::stub(forward_quad, st_q_real)]
+#[kani::stub(bcref::cast6::q, st_q_ref)]
+#[kani::stub(reverse_quad, st_qb_real)]
+#[kani::stub(bcref::cast6::qbar, st_qb_ref)]
+#[kani::unwind(25)]
 fn c_encrypt_block() {
     let c = any_cast6();
     let b: [u8; 16] = kani::any();
     let mut blk = Array(b);
     cipher::BlockCipherEncrypt::encrypt_block(&c, &mut blk);
+    replay_all();
     assert!(eq4(&r::words_of(&blk.0), &r::encrypt_words(&keyed_of(&c), r::words_of(&b))));
 }
 // @ob name=c_decrypt_block props=C08,C20 fn=cast6::Cast6::decrypt_block uses=c_forward_quad,c_reverse_quad,c_word_conversions timeout=900
 #[kani::proof]
-#[kani::stub(forward_quad, spec_forward_quad)]
-#[kani::stub(reverse_quad, spec_reverse_quad)]
-#[kani::unwind(13)]
+#[kani::stub(forward_quad, st_q_real)]
+#[kani::stub(bcref::cast6::q, st_q_ref)]
+#[kani::stub(reverse_quad, st_qb_real)]
+#[kani::stub(bcref::cast6::qbar, st_qb_ref)]
+#[kani::unwind(25)]
 fn c_decrypt_block() {
     let c = any_cast6();
     let b: [u8; 16] = kani::any();
     let mut blk = Array(b);
     cipher::BlockCipherDecrypt::decrypt_block(&c, &mut blk);
+    replay_all();
     assert!(eq4(&r::words_of(&blk.0), &r::decrypt_words(&keyed_of(&c), r::words_of(&b))));
 }
 
-/// Uninterpreted *inverse pair* standing for forward_quad / reverse_quad: per key (m, rot) the two are mutually
-/// inverse bijections of 128-bit values and otherwise unconstrained (relation table, concrete call counter).
-/// Licensed by c_forward_quad / c_reverse_quad (pure functions of (beta, m, rot)) and l_quad_inverse.
+/// Over-approximation of "forward_quad(m, rot) and reverse_quad(m, rot) are mutually inverse": during the first block
+/// operation every call returns an unconstrained value and is recorded (direction, keys, argument, result); during the
+/// second block operation the c-th call consults exactly ONE recorded call, the last one not yet consulted (a stack:
+/// the second operation undoes the quad-rounds of the first in reverse order) and, if that call had the opposite
+/// direction, the same keys and produced the present argument, returns that call's argument; otherwise an
+/// unconstrained value.  Every behaviour of the real pair is included, by l_quad_inverse (both orders) and
+/// c_forward_quad / c_reverse_quad (pure functions of (beta, m, rot)).
 pub mod ufq {
     use super::eq4;
-    pub const MAXC: usize = 26;
-    pub static mut KM: [[u32; 4]; MAXC] = [[0; 4]; MAXC];
-    pub static mut KR: [u32; MAXC] = [0; MAXC];
-    pub static mut A: [[u32; 4]; MAXC] = [[0; 4]; MAXC]; // fwd(A) = B
-    pub static mut B: [[u32; 4]; MAXC] = [[0; 4]; MAXC];
-    pub static mut N: usize = 0;
+    pub static mut FWD: [bool; 12] = [false; 12];
+    pub static mut KM: [[u32; 4]; 12] = [[0; 4]; 12];
+    pub static mut KR: [u32; 12] = [0; 12];
+    pub static mut A: [[u32; 4]; 12] = [[0; 4]; 12];
+    pub static mut B: [[u32; 4]; 12] = [[0; 4]; 12];
+    pub static mut CALLS: usize = 0;
     #[allow(static_mut_refs)]
-    pub fn fwd(beta: &mut [u32; 4], m: &[u32; 4], rot: &[u8; 4]) {
+    fn any(fwd: bool, beta: &mut [u32; 4], m: &[u32; 4], rot: &[u8; 4]) {
         unsafe {
+            let c = CALLS;
+            CALLS += 1;
+            assert!(c < 24);
             let kr = u32::from_le_bytes(*rot);
-            let x = *beta;
             let mut y: [u32; 4] = kani::any();
-            let mut found = false;
-            let mut i = 0;
-            while i < N {
-                if eq4(&KM[i], m) && KR[i] == kr && !found && eq4(&A[i], &x) { y = B[i]; found = true; }
-                i += 1;
+            if c < 12 {
+                FWD[c] = fwd; KM[c] = *m; KR[c] = kr; A[c] = *beta; B[c] = y;
+            } else {
+                let j = 23 - c;
+                if FWD[j] != fwd && eq4(&KM[j], m) && KR[j] == kr && eq4(&B[j], beta) { y = A[j]; }
             }
-            if !found {
-                let mut i = 0;
-                while i < N {
-                    if eq4(&KM[i], m) && KR[i] == kr { kani::assume(!eq4(&B[i], &y)); }
-                    i += 1;
-                }
-            }
-            assert!(N < MAXC);
-            KM[N] = *m; KR[N] = kr; A[N] = x; B[N] = y; N += 1;
             *beta = y;
         }
     }
-    #[allow(static_mut_refs)]
-    pub fn rev(beta: &mut [u32; 4], m: &[u32; 4], rot: &[u8; 4]) {
-        unsafe {
-            let kr = u32::from_le_bytes(*rot);
-            let y = *beta;
-            let mut x: [u32; 4] = kani::any();
-            let mut found = false;
-            let mut i = 0;
-            while i < N {
-                if eq4(&KM[i], m) && KR[i] == kr && !found && eq4(&B[i], &y) { x = A[i]; found = true; }
-                i += 1;
-            }
-            if !found {
-                let mut i = 0;
-                while i < N {
-                    if eq4(&KM[i], m) && KR[i] == kr { kani::assume(!eq4(&A[i], &x)); }
-                    i += 1;
-                }
-            }
-            assert!(N < MAXC);
-            KM[N] = *m; KR[N] = kr; A[N] = x; B[N] = y; N += 1;
-            *beta = x;
-        }
-    }
+    pub fn fwd(beta: &mut [u32; 4], m: &[u32; 4], rot: &[u8; 4]) { any(true, beta, m, rot) }
+    pub fn rev(beta: &mut [u32; 4], m: &[u32; 4], rot: &[u8; 4]) { any(false, beta, m, rot) }
 }
 // C01 for every value of the 48 + 48 round keys
-// @ob name=l_roundtrip props=C01 kind=lemma fn=cast6::Cast6::encrypt_block,cast6::Cast6::decrypt_block uses=c_forward_quad,c_reverse_quad,l_quad_inverse timeout=900
+// @ob name=l_roundtrip_ed props=C01 kind=lemma fn=cast6::Cast6::encrypt_block,cast6::Cast6::decrypt_block uses=c_forward_quad,c_reverse_quad,l_quad_inverse timeout=900
 #[kani::proof]
 #[kani::stub(forward_quad, ufq::fwd)]
 #[kani::stub(reverse_quad, ufq::rev)]
 #[kani::unwind(27)]
-fn l_roundtrip() {
+fn l_roundtrip_ed() {
     let c = any_cast6();
     let b: [u8; 16] = kani::any();
     let mut blk = Array(b);
@@ -241,12 +259,12 @@ fn l_roundtrip() {
     cipher::BlockCipherDecrypt::decrypt_block(&c, &mut blk);
     assert!(blk.0 == b);
 }
-// @ob name=l_roundtrip_rev props=C01 kind=lemma fn=cast6::Cast6::encrypt_block,cast6::Cast6::decrypt_block uses=c_forward_quad,c_reverse_quad,l_quad_inverse timeout=900
+// @ob name=l_roundtrip_de props=C01 kind=lemma fn=cast6::Cast6::encrypt_block,cast6::Cast6::decrypt_block uses=c_forward_quad,c_reverse_quad,l_quad_inverse timeout=900
 #[kani::proof]
 #[kani::stub(forward_quad, ufq::fwd)]
 #[kani::stub(reverse_quad, ufq::rev)]
 #[kani::unwind(27)]
-fn l_roundtrip_rev() {
+fn l_roundtrip_de() {
     let c = any_cast6();
     let b: [u8; 16] = kani::any();
     let mut blk = Array(b);
@@ -256,50 +274,36 @@ fn l_roundtrip_rev() {
 }
 
 // ------------------------------------------------------------------ public API on bytes
-/// contract of key_schedule as a spec function (c_key_schedule)
-pub fn spec_key_schedule(c: &mut Cast6, key: &[u8; 32]) {
-    let kd = r::key_schedule(key);
-    c.masking = kd.km;
-    c.rotate = kd.kr;
-}
 // KeyInit::new_from_slice + encrypt_block / decrypt_block == CAST-256 of RFC 2612 on bytes, for every key of the five
-// lengths (SYMBOLIC length, zero padding included) and every block; key_schedule and the quad-rounds replaced by
-// their contracts.
-// @ob name=c_api_enc props=C08,C20 fn=cast6::Cast6::new_from_slice,cast6::Cast6::encrypt_block uses=c_key_schedule,c_forward_quad,c_reverse_quad timeout=900
-#[kani::proof]
-#[kani::stub(Cast6::key_schedule, spec_key_schedule)]
-#[kani::stub(forward_quad, spec_forward_quad)]
-#[kani::stub(reverse_quad, spec_reverse_quad)]
-#[kani::unwind(34)]
-fn c_api_enc() {
-    let buf: [u8; 32] = kani::any();
-    let n: usize = kani::any();
-    kani::assume(n == 16 || n == 20 || n == 24 || n == 28 || n == 32);
-    kani::cover!(n == 16);
-    kani::cover!(n == 20);
-    kani::cover!(n == 32);
-    let b: [u8; 16] = kani::any();
-    let c = <Cast6 as KeyInit>::new_from_slice(&buf[..n]).unwrap();
-    let mut blk = Array(b);
-    cipher::BlockCipherEncrypt::encrypt_block(&c, &mut blk);
-    assert!(blk.0 == r::encrypt(&buf, n, &b));
+// lengths (SYMBOLIC length, zero padding included) and every block.  Nothing of the real code is skipped except the
+// callees forward_octave, forward_quad, reverse_quad, which (with their reference counterparts) are uninterpreted.
+macro_rules! api_ob {
+    ($name:ident, $tr:ident, $f:ident, $rf:ident) => {
+        #[kani::proof]
+        #[kani::stub(forward_octave, st_w_real)]
+        #[kani::stub(bcref::cast6::w, st_w_ref)]
+        #[kani::stub(forward_quad, st_q_real)]
+        #[kani::stub(bcref::cast6::q, st_q_ref)]
+        #[kani::stub(reverse_quad, st_qb_real)]
+        #[kani::stub(bcref::cast6::qbar, st_qb_ref)]
+        #[kani::unwind(34)]
+        fn $name() {
+            let buf: [u8; 32] = kani::any();
+            let n: usize = kani::any();
+            kani::assume(n == 16 || n == 20 || n == 24 || n == 28 || n == 32);
+            kani::cover!(n == 16);
+            kani::cover!(n == 20);
+            kani::cover!(n == 32);
+            let b: [u8; 16] = kani::any();
+            let c = <Cast6 as KeyInit>::new_from_slice(&buf[..n]).unwrap();
+            let mut blk = Array(b);
+            cipher::$tr::$f(&c, &mut blk);
+            replay_all();
+            assert!(blk.0 == r::$rf(&buf, n, &b));
+        }
+    };
 }
-// @ob name=c_api_dec props=C08,C20 fn=cast6::Cast6::new_from_slice,cast6::Cast6::decrypt_block uses=c_key_schedule,c_forward_quad,c_reverse_quad timeout=900
-#[kani::proof]
-#[kani::stub(Cast6::key_schedule, spec_key_schedule)]
-#[kani::stub(forward_quad, spec_forward_quad)]
-#[kani::stub(reverse_quad, spec_reverse_quad)]
-#[kani::unwind(34)]
-fn c_api_dec() {
-    let buf: [u8; 32] = kani::any();
-    let n: usize = kani::any();
-    kani::assume(n == 16 || n == 20 || n == 24 || n == 28 || n == 32);
-    kani::cover!(n == 16);
-    kani::cover!(n == 20);
-    kani::cover!(n == 32);
-    let b: [u8; 16] = kani::any();
-    let c = <Cast6 as KeyInit>::new_from_slice(&buf[..n]).unwrap();
-    let mut blk = Array(b);
-    cipher::BlockCipherDecrypt::decrypt_block(&c, &mut blk);
-    assert!(blk.0 == r::decrypt(&buf, n, &b));
-}
+// @ob name=c_api_enc props=C08,C20 fn=cast6::Cast6::new_from_slice,cast6::Cast6::key_schedule,cast6::Cast6::encrypt_block uses=c_forward_octave,c_forward_quad,c_reverse_quad,x_tables timeout=900
+api_ob!(c_api_enc, BlockCipherEncrypt, encrypt_block, encrypt);
+// @ob name=c_api_dec props=C08,C20 fn=cast6::Cast6::new_from_slice,cast6::Cast6::key_schedule,cast6::Cast6::decrypt_block uses=c_forward_octave,c_forward_quad,c_reverse_quad,x_tables timeout=900
+api_ob!(c_api_dec, BlockCipherDecrypt, decrypt_block, decrypt);
